@@ -718,10 +718,17 @@ impl BufferedDatabaseWriter {
         //at the end of the batch, update the daily log with all room dates that needs to be recomputed
         #[cfg(feature = "verif")]
         let _ = crate::verif_hooks::fault::hit("batch.before_marks");
-        daily_log.write(conn)?;
+        if let Err(e) = daily_log.write(conn) {
+            let _ = conn.execute("ROLLBACK", []);
+            return Err(e);
+        }
         #[cfg(feature = "verif")]
         let _ = crate::verif_hooks::fault::hit("batch.before_commit");
-        conn.execute("COMMIT", [])?;
+        if let Err(e) = conn.execute("COMMIT", []) {
+            //a failed COMMIT may leave the transaction open: sqlite recommends an explicit ROLLBACK
+            let _ = conn.execute("ROLLBACK", []);
+            return Err(e);
+        }
         #[cfg(feature = "verif")]
         let _ = crate::verif_hooks::fault::hit("batch.after_commit");
 
